@@ -27,7 +27,7 @@ Steps(c) ==
     [] c.ctx \in {"const", "default", "list", "mapkey", "typedef-const"} -> << ConstStep(c.ty, LimbsOf(c.items[1].lit), TRUE) >>
     [] OTHER -> <<>>
 
-MustReject(c) == c.ctx \in {"dup-id", "dup-name", "dup-item", "dup-item-case", "self-const", "self-const-2", "self-service", "self-service-2", "dup-fn"}
+MustReject(c) == c.ctx \in {"dup-id", "dup-name", "dup-item", "dup-item-case", "self-const", "self-const-2", "self-service", "self-service-2", "dup-fn", "throws-typedef", "throws-struct", "throws-primitive", "oneway-result", "oneway-throws", "dup-param-id", "dup-param-name", "dup-throws-id", "union-required", "extends-struct", "extends-missing", "dup-type-name"}
 NumTy(c) == IF c.ctx = "enum" THEN "i32" ELSE IF c.ctx \in {"fields-strict", "fields-nonstrict"} THEN "i16" ELSE c.ty
 
 Checks(e) ==
